@@ -1184,8 +1184,16 @@ func (mpt *MerklePatriciaTrie) MergeDB(ndb NodeDB, root Key, deadNodes []Node) e
 	mpt.mutex.Lock()
 	defer mpt.mutex.Unlock()
 	handler := func(ctx context.Context, key Key, node Node) error {
-		_, _, err := mpt.insertNode(nil, node)
-		return err
+		// the origin of a synced node is part of its hash: store a copy under its own hash instead of
+		// stamping it (and the donor's node object) with this trie's version
+		nd := node.CloneNode()
+		ckey := nd.GetHashBytes()
+		if err := mpt.db.PutNode(ckey, nd); err != nil {
+			return err
+		}
+		mpt.cache.Set(string(ckey), nd)
+		mpt.ChangeCollector.AddChange(nil, nd)
+		return nil
 	}
 	mpt.root = root
 	mpt.deleteNodes = append(mpt.deleteNodes, deadNodes...)
